@@ -42,7 +42,7 @@ C05 line protocol.  One line = one whole case.
             (the destination appears just before that call)
 
   Output: `<first save> | <retry>` of `runScript`, each half
-  out=<ok|body|os:<errno>> calls=<n> dest=<-|mode:hex> part=<-|mode:hex>
+  out=<ok|body|os:<errno>> calls=<n> dest=<-|mode:hex> part=<-|mode:hex> tr=<the successful events with an effect>
 -/
 namespace C05.Driver
 open BV C04 C05
@@ -109,8 +109,30 @@ def showOut : Outcome → String
   | .bodyExc => "body"
   | .osErr e => s!"os:{e}"
 
+def showEv : Ev → String
+  | .noop => "n"
+  | .openPart ex sd md => s!"o{if ex then 1 else 0}{if sd then 1 else 0}:{md}"
+  | .chmodPart md => s!"c{md}"
+  | .write d _ => "w" ++ (if d.isEmpty then "" else hexOfBytes d)
+  | .flush => "f"
+  | .fsync => "s"
+  | .close => "x"
+  | .closeFd => "xf"
+  | .renamePartDest => "R"
+  | .linkPartDest => "L"
+  | .unlinkPart => "U"
+  | .truncDest => "T"
+  | .writeDest d => "W" ++ (if d.isEmpty then "" else hexOfBytes d)
+  | .unlinkDest => "D"
+  | .unknown => "?"
+
+/-- the successful events with an effect, in order (probes and `fdopen` are `noop`s: not shown) -/
+def showTr (t : List Ev) : String :=
+  let l := (t.filter (fun e => !(e matches Ev.noop))).map showEv
+  if l.isEmpty then "-" else ",".intercalate l
+
 def showRes (r : Outcome × M) : String :=
-  s!"out={showOut r.1} calls={r.2.n} dest={showFile r.2.fs r.2.fs.dir.dest} part={showFile r.2.fs r.2.fs.dir.part}"
+  s!"out={showOut r.1} calls={r.2.n} dest={showFile r.2.fs r.2.fs.dir.dest} part={showFile r.2.fs r.2.fs.dir.part} tr={showTr r.2.tr}"
 
 def handleRef (ws : List String) : String :=
   match ws with
